@@ -191,16 +191,31 @@ Lemma wf_kernel_parts ex m : wf_kernel ex m = true ->
   forallb tok_ok (hdr_tokens m) = true /\ suffixb [58] (m_addr m) = false /\
   (match m_addr m with c :: _ => is_hex c | [] => false end) = true /\
   path_ok ex m = true /\ forallb wf_line (m_lines m) = true /\
-  forallb (fun f => Nat.eqb (count_fig f (m_lines m)) 1) row_figs = true /\
-  Nat.leb (count_fig FPrivateHugetlb (m_lines m)) 1 = true.
+  forallb (fun f => Nat.leb (count_fig f (m_lines m)) 1) all_figs = true /\
+  m_lines m <> [].
 Proof.
   unfold wf_kernel, wf_header, wf_body. intros H.
   apply andb_true_iff in H as [Hh Hb].
   apply andb_true_iff in Hb as [Hb H7]. apply andb_true_iff in Hb as [H5 H6].
   apply andb_true_iff in Hh as [H H4].
   apply andb_true_iff in H as [H H3]. apply andb_true_iff in H as [H1 H2].
-  apply negb_true_iff in H2. auto 10.
+  apply negb_true_iff in H2.
+  assert (m_lines m <> []) by (destruct (m_lines m); [discriminate|discriminate]). auto 10.
 Qed.
+
+Lemma esc_nl_no_nl p : contains 10 (esc_nl p) = false.
+Proof.
+  induction p as [|c p IH]; [reflexivity|]. cbn [esc_nl]. destruct (Z.eqb_spec c 10) as [->|Hc].
+  - rewrite !contains_cons, IH. reflexivity.
+  - rewrite contains_cons, IH. destruct (Z.eqb_spec 10 c); [congruence|reflexivity].
+Qed.
+Lemma esc_nl_id p : contains 10 p = false -> esc_nl p = p.
+Proof.
+  induction p as [|c p IH]; [reflexivity|]. rewrite contains_cons. intros H. apply orb_false_iff in H as [Hc Hp].
+  cbn [esc_nl]. rewrite Z.eqb_sym, Hc. now rewrite IH.
+Qed.
+Lemma esc_nl_head c pr : is_ws c = false -> esc_nl (c :: pr) = c :: esc_nl pr.
+Proof. intros H. cbn [esc_nl]. destruct (Z.eqb_spec c 10) as [->|]; [discriminate H|reflexivity]. Qed.
 
 Lemma hdr_fields ex m : wf_kernel ex m = true ->
   split_max 5 (hdr_text m) =
@@ -214,9 +229,10 @@ Proof.
   unfold hdr_text, hdr_core, hdr_trail, hdr_tokens. cbn [join]. rewrite <- !app_assoc. cbn [app].
   unfold path_ok in Hp. unfold shown_path in *. destruct (m_path m) as [|c pr] eqn:Ep.
   - rewrite split5 by auto. reflexivity.
-  - apply andb_true_iff in Hp as [Hp _]. apply andb_true_iff in Hp as [Hc _]. apply negb_true_iff in Hc.
+  - apply andb_true_iff in Hp as [Hc _]. apply negb_true_iff in Hc.
     rewrite split5 by auto. cbn [app]. f_equal. f_equal. f_equal. f_equal. f_equal.
     rewrite split_max_cons_ws by reflexivity. rewrite app_nil_r, split_max_spaces, split_max_0.
+    unfold kname. rewrite Ep, (esc_nl_head c pr Hc).
     destruct (m_deleted m); cbn [app lstrip]; rewrite Hc; reflexivity.
 Qed.
 
@@ -226,20 +242,21 @@ Proof.
   rewrite firstn_app, Nat.sub_diag, firstn_all. cbn [firstn]. apply app_nil_r.
 Qed.
 
-(* decoding of the path column: the mapping's own path *)
+(* decoding of the path column: the mapping's own path as the kernel shows it *)
 Lemma clean_path_own ex m c pr : m_path m = c :: pr ->
-  path_ok ex m = true -> clean_path ex (shown_path m) = m_path m.
+  path_ok ex m = true -> clean_path ex (shown_path m) = kname m.
 Proof.
   intros Ep Hp. unfold path_ok in Hp. rewrite Ep in Hp.
-  apply andb_true_iff in Hp as [_ Hd].
+  apply andb_true_iff in Hp as [Hc Hd]. apply negb_true_iff in Hc.
+  assert (Hk : kname m = c :: esc_nl pr) by (unfold kname; rewrite Ep; now apply esc_nl_head).
   assert (E : clean_path ex (shown_path m) =
               if suffixb deleted_sfx (shown_path m) && negb (ex (shown_path m))
               then firstn (length (shown_path m) - 10) (shown_path m) else shown_path m).
-  { unfold shown_path. rewrite Ep. destruct (m_deleted m); reflexivity. }
+  { unfold shown_path. rewrite Hk. destruct (m_deleted m); reflexivity. }
   rewrite E. unfold shown_path in *. destruct (m_deleted m).
   - rewrite suffixb_app. apply negb_true_iff in Hd. rewrite Hd. cbn [negb andb].
     change 10%nat with (length deleted_sfx). apply firstn_app_len.
-  - rewrite <- Ep in Hd. apply orb_true_iff in Hd as [Hd|Hd].
+  - apply orb_true_iff in Hd as [Hd|Hd].
     + apply negb_true_iff in Hd. now rewrite Hd.
     + rewrite Hd. cbn [negb]. now rewrite andb_false_r.
 Qed.
@@ -247,14 +264,14 @@ Qed.
 Lemma mk_row_hdr ex m d : wf_kernel ex m = true ->
   mk_row ex (hdr_text m) d =
   Val {| w_addr := m_addr m; w_perms := m_perms m;
-         w_path := match m_path m with [] => anon_path | p => p end;
+         w_path := match m_path m with [] => anon_path | _ => kname m end;
          w_nums := map (fun k => dict_get k d) map_keys |}.
 Proof.
   intros Hk. unfold mk_row. rewrite (hdr_fields ex m Hk). unfold hdr_tokens.
   apply wf_kernel_parts in Hk as (_ & _ & _ & Hp & _).
   destruct (m_path m) as [|c pr] eqn:Ep; cbn [app].
   - reflexivity.
-  - rewrite <- Ep. now rewrite (clean_path_own ex m c pr Ep Hp).
+  - now rewrite (clean_path_own ex m c pr Ep Hp).
 Qed.
 
 Lemma block_line_hdr ex m cur d rows : wf_kernel ex m = true ->
@@ -406,9 +423,8 @@ Proof.
   rewrite (tok_no_nl _ Ha), (tok_no_nl _ Hpm), (tok_no_nl _ Ho), (tok_no_nl _ Hd), (tok_no_nl _ Hi).
   change (contains 10 [32]) with false. cbn [orb].
   unfold path_ok in Hp. unfold shown_path. destruct (m_path m) as [|c pr] eqn:Ep; [reflexivity|].
-  apply andb_true_iff in Hp as [Hp _]. apply andb_true_iff in Hp as [_ Hn]. apply negb_true_iff in Hn.
-  rewrite contains_cons, contains_app, contains_spaces by discriminate.
-  destruct (m_deleted m); [rewrite contains_app|]; rewrite Hn; reflexivity.
+  rewrite contains_cons, contains_app, contains_spaces by discriminate. unfold kname.
+  destruct (m_deleted m); [rewrite contains_app|]; rewrite esc_nl_no_nl; reflexivity.
 Qed.
 
 Lemma texts_no_nl ex ms ys : texts_of ms ys -> forallb (wf_kernel ex) ms = true ->
@@ -437,26 +453,75 @@ Proof.
   rewrite map_keys_eq, map_map. apply map_ext_in. exact Hd.
 Qed.
 
-Lemma has_figs_fold ex m d : wf_kernel ex m = true -> has_figs m (fold_left upd (m_lines m) d).
+Lemma count_le1 ex m f : wf_kernel ex m = true -> (count_fig f (m_lines m) <= 1)%nat.
 Proof.
-  intros H f Hf. apply wf_kernel_parts in H as (_ & _ & _ & _ & Hl & Hc & _).
-  rewrite forallb_forall in Hc. specialize (Hc f Hf). apply Nat.eqb_eq in Hc.
-  unfold kb. now apply get_fold_one.
+  intros H. apply wf_kernel_parts in H as (_ & _ & _ & _ & _ & Hc & _).
+  rewrite forallb_forall in Hc. apply Nat.leb_le. apply Hc. apply in_all_figs.
+Qed.
+
+Lemma kb_absent m f : count_fig f (m_lines m) = O -> kb m f = 0.
+Proof. intros H. unfold kb, fig_kb. now rewrite (find_fig_count0 f _ H). Qed.
+
+(* the dict after a mapping's lines holds that mapping's figures, provided a figure the
+   mapping does not print was not printed by the previous one either *)
+Lemma has_figs_step ex m m' dm : wf_kernel ex m' = true -> has_figs m dm ->
+  (forall f, In f row_figs -> count_fig f (m_lines m') = O -> count_fig f (m_lines m) = O) ->
+  has_figs m' (fold_left upd (m_lines m') dm).
+Proof.
+  intros Hk Hd Hu f Hf. pose proof (count_le1 ex m' f Hk) as Hle.
+  pose proof Hk as Hk2. apply wf_kernel_parts in Hk2 as (_ & _ & _ & _ & Hl & _).
+  destruct (count_fig f (m_lines m')) as [|[|n]] eqn:Ec; [| |lia].
+  - rewrite get_fold_none by assumption. rewrite (Hd f Hf), (kb_absent m' f Ec), (kb_absent m f (Hu f Hf Ec)). reflexivity.
+  - unfold kb. now apply get_fold_one.
+Qed.
+
+Lemma has_figs_init ex m : wf_kernel ex m = true -> has_figs m (fold_left upd (m_lines m) []).
+Proof.
+  intros Hk f Hf. pose proof (count_le1 ex m f Hk) as Hle.
+  pose proof Hk as Hk2. apply wf_kernel_parts in Hk2 as (_ & _ & _ & _ & Hl & _).
+  destruct (count_fig f (m_lines m)) as [|[|n]] eqn:Ec; [| |lia].
+  - rewrite get_fold_none by assumption. now rewrite (kb_absent m f Ec).
+  - unfold kb. now apply get_fold_one.
+Qed.
+
+(* every row figure is on every mapping or on none *)
+Definition unif (ms : list mapping) : Prop :=
+  forall f, In f row_figs ->
+    (forall m, In m ms -> count_fig f (m_lines m) = 1%nat) \/ (forall m, In m ms -> count_fig f (m_lines m) <> 1%nat).
+
+Lemma uniform_figs_unif ms : uniform_figs ms = true -> unif ms.
+Proof.
+  unfold uniform_figs, unif. intros H f Hf. rewrite forallb_forall in H. specialize (H f Hf).
+  apply orb_true_iff in H as [H|H]; rewrite forallb_forall in H.
+  - left. intros m Hm. apply Nat.eqb_eq. exact (H m Hm).
+  - right. intros m Hm E. specialize (H m Hm). unfold has_fig in H. apply Nat.eqb_eq in E. rewrite E in H. discriminate.
+Qed.
+
+Lemma unif_tail m ms : unif (m :: ms) -> unif ms.
+Proof. intros H f Hf. destruct (H f Hf) as [A|A]; [left|right]; intros m' Hm'; apply A; now right. Qed.
+
+Lemma unif_step ex m m' ms : unif (m :: m' :: ms) -> wf_kernel ex m = true ->
+  forall f, In f row_figs -> count_fig f (m_lines m') = O -> count_fig f (m_lines m) = O.
+Proof.
+  intros H Hk f Hf E. pose proof (count_le1 ex m f Hk) as Hle. destruct (H f Hf) as [A|A].
+  - specialize (A m' (or_intror (or_introl eq_refl))). congruence.
+  - specialize (A m (or_introl eq_refl)). lia.
 Qed.
 
 Lemma blocks_run ex rest ys : texts_of rest ys -> forallb (wf_kernel ex) rest = true ->
-  forall m dm rows, wf_kernel ex m = true -> has_figs m dm ->
+  forall m dm rows, wf_kernel ex m = true -> has_figs m dm -> unif (m :: rest) ->
   (do st <- block_fold ex (hdr_text m, dm, rows) ys; finish ex st)
   = Val (rev rows ++ spec_row m :: map spec_row rest).
 Proof.
-  induction 1 as [|m' ms xs ys Hx _ IH]; intros Hwf m dm rows Hm Hd.
+  induction 1 as [|m' ms xs ys Hx _ IH]; intros Hwf m dm rows Hm Hd Hu.
   - cbn [block_fold obind finish]. rewrite (row_of ex m dm Hm Hd). reflexivity.
   - cbn [forallb] in Hwf. apply andb_true_iff in Hwf as [Hm' Hms].
     pose proof Hm' as Hk'.
     cbn [block_fold]. rewrite (block_line_hdr ex m' _ dm rows Hk'), (row_of ex m dm Hm Hd). cbn [obind].
     rewrite block_fold_app.
     rewrite (block_fold_lines ex (m_lines m') xs); [|now apply wf_kernel_parts in Hk' as (_ & _ & _ & _ & Hl & _)|exact Hx].
-    cbn [obind]. rewrite (IH Hms m' _ (spec_row m :: rows) Hm' (has_figs_fold ex m' dm Hk')).
+    cbn [obind].
+    rewrite (IH Hms m' _ (spec_row m :: rows) Hm' (has_figs_step ex m m' dm Hk' Hd (unif_step ex m m' ms Hu Hm)) (unif_tail m _ Hu)).
     cbn [rev map]. now rewrite <- app_assoc.
 Qed.
 
@@ -464,15 +529,11 @@ Lemma memory_maps_data ex content D : strip content = D -> D <> [] ->
   memory_maps Alive ex (FContent content) = maps_of_data ex D.
 Proof. intros E Hne. unfold memory_maps, with_file. rewrite fstrip_strip, E. destruct D; [congruence|reflexivity]. Qed.
 
-Lemma count1_nonnil f ls : count_fig f ls = 1%nat -> ls <> [].
-Proof. destruct ls; [discriminate|congruence]. Qed.
-
 Lemma wf_has_lines ex ms : forallb (wf_kernel ex) ms = true -> Forall has_lines ms.
 Proof.
   induction ms as [|m ms IH]; [constructor|]. cbn [forallb]. intros H. apply andb_true_iff in H as [Hm Hms].
   constructor; [|now apply IH].
-  apply wf_kernel_parts in Hm as (_ & _ & _ & _ & _ & Hc & _). cbn [row_figs forallb] in Hc.
-  apply andb_true_iff in Hc as [Hc _]. apply Nat.eqb_eq in Hc. now apply (count1_nonnil FRss).
+  now apply wf_kernel_parts in Hm as (_ & _ & _ & _ & _ & _ & Hne).
 Qed.
 
 (* last physical line of a listing: a well-formed data line *)
@@ -528,10 +589,10 @@ Proof.
   - rewrite El. cbn [lp snd]. apply line_trail_ws.
 Qed.
 
-Theorem maps_ungrouped ex ms : forallb (wf_kernel ex) ms = true ->
+Theorem maps_ungrouped ex ms : forallb (wf_kernel ex) ms = true -> uniform_figs ms = true ->
   memory_maps Alive ex (FContent (k_smaps ms)) = Val (map spec_row ms).
 Proof.
-  intros Hwf. destruct ms as [|m0 ms]; [reflexivity|].
+  intros Hwf Hunif. apply uniform_figs_unif in Hunif. destruct ms as [|m0 ms]; [reflexivity|].
   pose proof Hwf as Hk.
   pose proof (texts_of_plines (m0 :: ms) (wf_has_lines ex _ Hk)) as Ht.
   pose proof (texts_no_nl ex _ _ Ht Hk) as Hn.
@@ -545,7 +606,7 @@ Proof.
   rewrite block_fold_app.
   rewrite (block_fold_lines ex (m_lines m0) xs); [|now apply wf_kernel_parts in Hk0 as (_ & _ & _ & _ & Hl & _)|exact Hx].
   cbn [obind].
-  pose proof (blocks_run ex ms ys Hy Hms m0 _ [] Hm0 (has_figs_fold ex m0 [] Hk0)) as R.
+  pose proof (blocks_run ex ms ys Hy Hms m0 _ [] Hm0 (has_figs_init ex m0 Hk0) Hunif) as R.
   unfold finish in R. cbn [rev app map] in R |- *.
   destruct (block_fold ex (hdr_text m0, fold_left upd (m_lines m0) [], []) ys) as [[[cur d] rows]| |];
     cbn [obind] in R |- *; try discriminate R. exact R.
